@@ -26,7 +26,9 @@ def strat(tier):
         'n_ev': st.integers(5, 30), 'chunks': st.integers(1, 3), 'data_seed': st.integers(0, 10 ** 6),
         'optimize': st.sampled_from(['last', 'every', 'none']), 'max_opt_iters': st.sampled_from([10, 25, 50]),
         'func': st.sampled_from(['bowl', 'sine', 'steep', 'flat']), 'noise': st.sampled_from([0.01, 0.1, 0.5]),
-        'threshold': st.one_of(st.none(), st.sampled_from([5, 20, 50, 90]), st.sampled_from(['far-below'])),
+        'threshold': st.one_of(st.none(), st.sampled_from([5, 20, 50, 90]), st.sampled_from(['far-below', 'zero', 'int-zero'])),
+        # 'log': the evidence is a log-discrepancy (values on both sides of 0, so that a threshold of exactly 0 is a natural choice)
+        'yscale': st.sampled_from(['raw', 'raw', 'log']),
         'prior': st.sampled_from(['uniform', 'normal']),
         'history': st.lists(st.sampled_from(['sample-phase', 'update', 'update-optimize', 'optimize', 'plain-predict']), min_size=1, max_size=5),
     }))
@@ -67,6 +69,8 @@ def _setup(case):
 def _evidence(case, rs, lo, w, n):
     U = rs.rand(n, case['d'])
     y = _f(case['func'], U) + case['noise'] * rs.randn(n)
+    if case.get('yscale') == 'log':
+        y = np.log(np.maximum(y, 1e-3) / 1.6)
     return lo + U * w, y
 
 
@@ -111,6 +115,12 @@ def run_case(case):
     thr = case['threshold']
     if thr == 'far-below':
         h = float(yall.min() - 8 * max(yall.std(), 0.1))
+    elif thr == 'zero':
+        h = 0.0
+        labels.append('threshold-exactly-0')
+    elif thr == 'int-zero':
+        h = 0
+        labels.append('threshold-exactly-0')
     elif thr is None:
         h = None
     else:
